@@ -70,7 +70,7 @@ def features(schema_name):
     f = {
         "derive_pe": ({"derives": ["PartialEq"]}, ["--additional-derive", "PartialEq"], "derives = [PartialEq]"),
         "derive_pe_eq": ({"derives": ["PartialEq", "Eq"]}, ["-a", "PartialEq", "-a", "Eq"], "derives = [PartialEq, Eq]"),
-        "derive_abs": ({"derives": ["::schemars::JsonSchema"]}, ["--additional-derive", "::schemars::JsonSchema"], "derives = [::schemars::JsonSchema]"),   # a GLOBAL path
+        "derive_abs": ({"derives": ["::std::hash::Hash"]}, ["--additional-derive", "::std::hash::Hash"], "derives = [::std::hash::Hash]"),   # a GLOBAL path
         "derive_path": ({"derives": ["schemars::JsonSchema"]}, ["--additional-derive", "schemars::JsonSchema"], "derives = [schemars::JsonSchema]"),
         "map_btree": ({"map_type": "::std::collections::BTreeMap"}, ["--map-type", "::std::collections::BTreeMap"], 'map_type = "::std::collections::BTreeMap"'),
         # the same map types in the spellings users write: without the leading `::`
@@ -95,7 +95,7 @@ def features(schema_name):
     tgt = {"example": ("Fruit", "Veggie"), "xrt": ("User", "User"), "rep1": ("Kind", "Holder"), "rep2": ("Sm", "Rooted")}[schema_name]
     f["patch"] = ({"patch": {tgt[1]: {"rename": "Renamed", "derives": ["PartialEq"]}}}, None, 'patch = { %s = { rename = "Renamed", derives = [PartialEq] } }' % tgt[1])
     # the same multi-segment derive given globally and in a patch: both spellings must dedupe
-    f["patch_abs"] = ({"patch": {tgt[1]: {"derives": ["::schemars::JsonSchema"]}}}, None, 'patch = { %s = { derives = [::schemars::JsonSchema] } }' % tgt[1])
+    f["patch_abs"] = ({"patch": {tgt[1]: {"derives": ["::std::hash::Hash"]}}}, None, 'patch = { %s = { derives = [::std::hash::Hash] } }' % tgt[1])
     f["patch_path"] = ({"patch": {tgt[1]: {"derives": ["schemars::JsonSchema"]}}}, None, 'patch = { %s = { derives = [schemars::JsonSchema] } }' % tgt[1])
     for sub in itertools.chain.from_iterable(itertools.combinations(["FromStr", "Display", "Default"], r) for r in range(4)):
         mods = []
@@ -392,8 +392,11 @@ def expand_macro(cases_, feats_by_schema, builder_tokens, tier, extra_env=None):
         frags = [fr for fr in frags if not fr.startswith("derives = ")]
         if derives:
             frags.append("derives = [%s]" % ", ".join(derives))
-        src.append("pub mod mac_%d {\n    typify::import_types!(%s);\n}" % (i, ", ".join(frags)))
-        src.append("pub mod bld_%d {\n%s\n}" % (i, builder_tokens[c["key"]]))
+        # a derive given as a GLOBAL path (::std::hash::Hash) must stay global: both modules get a local `std::hash` whose Hash is another
+        # derive, so that a front end which drops the leading `::` expands to different items (derive attributes themselves vanish in the expansion)
+        shadow = "    #[allow(unused_imports)] mod std { pub mod hash { pub use ::core::fmt::Debug as Hash; } }\n" if any(fn in ("derive_abs", "patch_abs") for fn in c["features"]) else ""
+        src.append("pub mod mac_%d {\n%s    typify::import_types!(%s);\n}" % (i, shadow, ", ".join(frags)))
+        src.append("pub mod bld_%d {\n%s%s\n}" % (i, shadow, builder_tokens[c["key"]]))
     with open(os.path.join(d, "src", "lib.rs"), "w") as f:
         f.write("\n".join(src))
     env = dict(CARGO_ENV)
